@@ -1,18 +1,21 @@
 CONSTANTS
-  Descs <- AllDescs
-  InitDescs <- Init10
+  Descs <- Sound
+  InitDescs <- Sound
   InitFS <- FS0
   Editable = {"a"}
-  Deletable = {"m", "o1"}
-  Targets <- NodeTargets
-  MaxSteps = 6
+  Deletable = {"mo", "m", "o1"}
+  Targets <- TargetKeys
+  MaxSteps = 5
   MaxBuilds = 3
-  MaxEdits = 3
-  MaxSwitch = 0
+  MaxEdits = 2
+  MaxSwitch = 1
   WithDB = {TRUE}
-  SkipSets <- Skip10
+  SkipSets <- Skip4
+  Creatable <- Creat4
 INIT MCInit
 NEXT MCNext
+INVARIANT InPlaceOnce
+INVARIANT RunTogether
 INVARIANT OutputsClean
 INVARIANT NullBuildRunsNothing
 INVARIANT FailureStops
